@@ -22,9 +22,10 @@ Inductive case :=
 
 Definition pair_eqb (x y : Z * Z) : bool := (fst x =? fst y) && (snd x =? snd y).
 
-(* all clock readings in [lo, hi]; the interval is one or two seconds wide in practice *)
+(* all clock readings in [lo, hi]; the harness guarantees lo <= hi <= lo + 2 (else it aborts the run
+   as an infrastructure error); a case outside that bound does not correspond *)
 Definition nows (lo hi : Z) : list Z := map (fun k => lo + Z.of_nat k) (seq 0 (Z.to_nat (hi - lo + 1))).
-Definition clock_ok (lo hi : Z) : bool := (lo <=? hi) && (hi - lo <=? 4).
+Definition clock_ok (lo hi : Z) : bool := (lo <=? hi) && (hi - lo <=? 2).
 
 Definition fmt_ok (loc : Z) (s : string) (e : expect) : bool :=
   match e with
@@ -41,11 +42,11 @@ Definition corr (c : case) : bool :=
   match c with
   | CArg loc s lo hi e obs =>
     fmt_ok loc s e &&
-    (negb (clock_ok lo hi) ||
+    (clock_ok lo hi &&
      existsb (fun now => res_eqb Z.eqb (parse_time_argument loc now (S_ s)) obs) (nows lo hi))
   | CRange loc a b lo hi ea eb obs =>
     fmt_ok loc a ea && fmt_ok loc b eb &&
-    (negb (clock_ok lo hi) ||
+    (clock_ok lo hi &&
      existsb (fun n1 => existsb (fun n2 => res_eqb pair_eqb (parse_time_range loc n1 n2 (S_ a) (S_ b)) obs)
                                 (nows n1 hi)) (nows lo hi))
   end.
